@@ -1847,6 +1847,10 @@ func (cs *clientStream) writeRequestBody(req *http.Request, dumps, headerDumps [
 
 	cc.wmu.Lock()
 	defer cc.wmu.Unlock()
+	// The peer may have lowered SETTINGS_MAX_FRAME_SIZE since the upload began.
+	// processSettings applies and acknowledges SETTINGS with wmu held, so what
+	// is read here is the limit in force for the frames written below.
+	maxFrameSize = int(cc.maxFrameSize)
 	var trls []byte
 	if len(trailer) > 0 {
 		trls, err = cc.encodeTrailers(trailer, headerDumps)
